@@ -77,6 +77,36 @@ class DefaultEvaluatorStep(PlanStep):
         """
         config = EnOptConfig.model_validate(config, context=transforms)
 
+        try:
+            exit_code = self._evaluate(config, transforms, variables, metadata)
+        except OptimizationAborted as exc:
+            exit_code = exc.exit_code
+
+        if exit_code == OptimizerExitCode.USER_ABORT:
+            self.plan.abort()
+
+        try:
+            self.emit_event(
+                Event(
+                    event_type=EventType.FINISHED_EVALUATOR_STEP,
+                    config=config,
+                    source=self.id,
+                )
+            )
+        except OptimizationAborted as exc:
+            exit_code = exc.exit_code
+            if exit_code == OptimizerExitCode.USER_ABORT:
+                self.plan.abort()
+
+        return exit_code
+
+    def _evaluate(
+        self,
+        config: EnOptConfig,
+        transforms: OptModelTransforms | None,
+        variables: ArrayLike | None,
+        metadata: dict[str, Any] | None,
+    ) -> OptimizerExitCode:
         self.emit_event(
             Event(
                 event_type=EventType.START_EVALUATOR_STEP,
@@ -96,8 +126,6 @@ class DefaultEvaluatorStep(PlanStep):
             self.plan.optimizer_context.plugin_manager,
         )
 
-        exit_code = OptimizerExitCode.EVALUATION_STEP_FINISHED
-
         self.emit_event(
             Event(
                 event_type=EventType.START_EVALUATION,
@@ -105,17 +133,16 @@ class DefaultEvaluatorStep(PlanStep):
                 source=self.id,
             )
         )
-        try:
-            results = ensemble_evaluator.calculate(
-                variables, compute_functions=True, compute_gradients=False
-            )
-        except OptimizationAborted as exc:
-            exit_code = exc.exit_code
+        results = ensemble_evaluator.calculate(
+            variables, compute_functions=True, compute_gradients=False
+        )
 
+        exit_code = OptimizerExitCode.EVALUATION_STEP_FINISHED
         assert results
-        assert isinstance(results[0], FunctionResults)
-        if results[0].functions is None:
-            exit_code = OptimizerExitCode.TOO_FEW_REALIZATIONS
+        for item in results:
+            assert isinstance(item, FunctionResults)
+            if item.functions is None:
+                exit_code = OptimizerExitCode.TOO_FEW_REALIZATIONS
 
         if metadata is not None:
             for item in results:
@@ -136,17 +163,6 @@ class DefaultEvaluatorStep(PlanStep):
                 config=config,
                 source=self.id,
                 data=data,
-            )
-        )
-
-        if exit_code == OptimizerExitCode.USER_ABORT:
-            self.plan.abort()
-
-        self.emit_event(
-            Event(
-                event_type=EventType.FINISHED_EVALUATOR_STEP,
-                config=config,
-                source=self.id,
             )
         )
 
